@@ -49,7 +49,7 @@ inductive ProxyOp where
   | repr
   | str
   /-- `__exit__(exc, typ, tb)`: only the first argument travels -/
-  | ctxExit (exc : PyVal)
+  | ctxExit (exc typ tb : PyVal)
   | reduceEx (proto : PyVal)
   | instancecheck (otherIdPack : PyVal)
   /-- the made method `__call__` -/
@@ -116,7 +116,7 @@ def wireOf : ProxyOp → Wire
   | .cmp op other => .request Gen.Netref.handleCmp [other, strVal op.method]
   | .repr => .request Gen.Netref.handleRepr []
   | .str => .request Gen.Netref.handleStr []
-  | .ctxExit exc => .request Gen.Netref.handleCtxexit [exc]
+  | .ctxExit exc _ _ => .request Gen.Netref.handleCtxexit [exc]
   | .reduceEx proto => .request Gen.Netref.handlePickle [proto]
   | .instancecheck other => .request Gen.Netref.handleInstancecheck [other]
   | .call args kwargs => .request Gen.Netref.handleCall [mkTup args, kwTuple kwargs]
@@ -145,6 +145,8 @@ inductive PrimOp where
   | pickle (obj : PyVal) (proto : PyVal)
   /-- `try: raise exc / except Exception: sys.exc_info()` as the triple `(type, value, traceback)` -/
   | raiseCatch (exc : PyVal)
+  /-- `bool(obj)` of an object (for an immutable value the model computes it: `falsyVal`) -/
+  | truth (obj : PyVal)
   /-- `_handle_instancecheck`'s cache lookup and `isinstance` -/
   | instancecheck (obj : PyVal) (other : PyVal)
 
@@ -206,17 +208,43 @@ def andThen {H : Type} (step : H → Res × H) (k : PyVal → H → Res × H) (h
   | (.ok v, h') => k v h'
   | (.error e, h') => (.error e, h')
 
-/-- `_handle_ctxexit` -/
+/-- Python truthiness of an immutable value: `None`, `False`, zero of any numeric type, empty text / bytes / tuple /
+frozenset are falsy (`NotImplemented`, `Ellipsis`, every slice are truthy) -/
+def falsyVal : Val → Bool
+  | .none => true
+  | .bool b => !b
+  | .int i => i == 0
+  | .float bits => bits % 2 ^ 63 == 0
+  | .complex re im => re % 2 ^ 63 == 0 && im % 2 ^ 63 == 0
+  | .bytes b => b.isEmpty
+  | .str cps => cps.isEmpty
+  | .tuple xs => xs.isEmpty
+  | .fset xs => xs.isEmpty
+  | _ => false
+
+/-- the `else:` branch of `_handle_ctxexit`: `typ = tb = None; obj.__exit__(exc, typ, tb)` -/
+def exitPlain {H : Type} (S : ObjSem H) (pol : Policy) (obj exc : PyVal) : H → Res × H :=
+  andThen (hGetattr S pol obj (strVal "__exit__")) (fun f => S.apply (.call f [exc, pyNone, pyNone] []))
+
+/-- the `if exc:` branch: `try: raise exc / except Exception: exc, typ, tb = sys.exc_info()`, then `__exit__` with those -/
+def exitRaised {H : Type} (S : ObjSem H) (pol : Policy) (obj exc : PyVal) : H → Res × H :=
+  S.bind (.raiseCatch exc) (fun info =>
+    match itemsOf info with
+    | .ok [t, v, tb] =>
+      andThen (hGetattr S pol obj (strVal "__exit__")) (fun f => S.apply (.call f [t, v, tb] []))
+    | _ => fun h => (.error typeErrorExc, h))
+
+/-- `_handle_ctxexit`: `if exc:` is Python truthiness — computed for an immutable value, asked of the object otherwise
+(for a proxy of a caller-side object that is a round trip back to the caller) -/
 def hCtxexit {H : Type} (S : ObjSem H) (pol : Policy) (obj exc : PyVal) : H → Res × H :=
   match exc with
-  | .imm .none =>
-    andThen (hGetattr S pol obj (strVal "__exit__")) (fun f => S.apply (.call f [pyNone, pyNone, pyNone] []))
-  | _ =>
-    S.bind (.raiseCatch exc) (fun info =>
-      match itemsOf info with
-      | .ok [t, v, tb] =>
-        andThen (hGetattr S pol obj (strVal "__exit__")) (fun f => S.apply (.call f [t, v, tb] []))
-      | _ => fun h => (.error typeErrorExc, h))
+  | .imm v => if falsyVal v then exitPlain S pol obj exc else exitRaised S pol obj exc
+  | .tup _ => exitRaised S pol obj exc          -- a tuple holding an object is not empty
+  | .ref _ _ =>
+    S.bind (.truth exc) (fun t =>
+      match t with
+      | .imm (.bool false) => exitPlain S pol obj exc
+      | _ => exitRaised S pol obj exc)
 
 /-- `self._HANDLERS[handler](self, *args)` for the handlers that operate on objects; `allowPickle` is the
 configuration switch `_handle_pickle` consults -/
@@ -305,14 +333,10 @@ def direct {H : Type} (S : ObjSem H) (allowPickle : Bool) (target : PyVal) : Pro
       S.bind (.getattr t (nameOf op.method)) (fun f => S.apply (.call f [target, other] [])))
   | .repr => S.apply (.repr target)
   | .str => S.apply (.str target)
-  | .ctxExit exc =>
-    match exc with
-    | .imm .none => S.bind (.getattr target (nameOf "__exit__")) (fun f => S.apply (.call f [pyNone, pyNone, pyNone] []))
-    | _ =>
-      S.bind (.raiseCatch exc) (fun info =>
-        match itemsOf info with
-        | .ok [t, v, tb] => S.bind (.getattr target (nameOf "__exit__")) (fun f => S.apply (.call f [t, v, tb] []))
-        | _ => fun h => (.error typeErrorExc, h))
+  | .ctxExit exc typ tb =>
+    -- `target.__exit__(exc, typ, tb)`: what `with target:` does when the block is left (all three `None` without an
+    -- exception), or an explicit call
+    S.bind (.getattr target (nameOf "__exit__")) (fun f => S.apply (.call f [exc, typ, tb] []))
   | .reduceEx proto =>
     if allowPickle then S.apply (.pickle target proto) else fun h => (.error ⟨nameOf "ValueError", []⟩, h)
   | .instancecheck other => S.apply (.instancecheck target other)
@@ -329,7 +353,7 @@ def policyNames : ProxyOp → List (Perm × Name)
   | .setattr n _ => [(.set, n)]
   | .delattr n => [(.del, n)]
   | .cmp op _ => [(.get, nameOf op.method)]
-  | .ctxExit _ => [(.get, nameOf "__exit__")]
+  | .ctxExit _ _ _ => [(.get, nameOf "__exit__")]
   | .method n _ _ => [(.get, n)]
   | _ => []
 
@@ -338,6 +362,17 @@ def kwNodup : ProxyOp → Prop
   | .call _ kwargs => (kwargs.map (·.1)).Nodup
   | .method _ _ kwargs => (kwargs.map (·.1)).Nodup
   | _ => True
+
+/-- operands for which the forwarded operation can be the direct one at all: `__exit__` forwards only its first
+operand (`# can't pass type nor traceback`), and a truthy first operand is re-raised on the target's side to obtain a
+fresh `(type, value, traceback)`: faithful exactly when a block is left WITHOUT an exception — first operand falsy,
+the other two `None` -/
+def inScope : ProxyOp → Prop
+  | .ctxExit exc typ tb => (∃ v, exc = .imm v ∧ falsyVal v = true) ∧ typ = pyNone ∧ tb = pyNone
+  | _ => True
+
+/-- the operation is put on the wire (not served by the netref object itself) -/
+def isForwarded (op : ProxyOp) : Prop := ∃ handler args, wireOf op = .request handler args
 
 /-- one operation through the proxy: nothing happens to the target for an operation served locally (`none`) -/
 def throughProxy {H : Type} (S : ObjSem H) (pol : Policy) (allowPickle : Bool) (target : PyVal) (op : ProxyOp) :
@@ -357,14 +392,14 @@ def runProxy {H : Type} (S : ObjSem H) (pol : Policy) (allowPickle : Bool) (targ
     | some step => ((step h).1 :: (runProxy S pol allowPickle target ops (step h).2).1,
                     (runProxy S pol allowPickle target ops (step h).2).2)
 
-/-- the same sequence applied to the target itself -/
+/-- the same sequence applied to the target itself: EVERY operation is performed on the target, also those a proxy
+would keep to itself (`p.__doc__ = x` changes the netref object, `t.__doc__ = x` the target: `sequence_equiv` therefore
+speaks about forwarded operations only) -/
 def runDirect {H : Type} (S : ObjSem H) (allowPickle : Bool) (target : PyVal) : List ProxyOp → H → List Res × H
   | [], h => ([], h)
   | op :: ops, h =>
-    match wireOf op with
-    | .local_ _ => runDirect S allowPickle target ops h
-    | .request _ _ => ((direct S allowPickle target op h).1 :: (runDirect S allowPickle target ops (direct S allowPickle target op h).2).1,
-                       (runDirect S allowPickle target ops (direct S allowPickle target op h).2).2)
+    ((direct S allowPickle target op h).1 :: (runDirect S allowPickle target ops (direct S allowPickle target op h).2).1,
+     (runDirect S allowPickle target ops (direct S allowPickle target op h).2).2)
 
 /-! ### the attribute policy (`Connection._check_attr`), concretely -/
 
